@@ -147,9 +147,7 @@ def same_nodata(got, want) -> bool:
 # ----------------------------------------------------------------------------- building the input
 def build_input(img: dict):
     """case['img'] -> (DataArray, canonical (nb,ny,nx) pixels, original Affine, GeoBox)."""
-    import xarray as xr
     from odc.geo.geobox import GeoBox
-    from odc.geo.xr import wrap_xr, xr_coords
 
     ny, nx = img["shape"]
     nb = img["nb"]
@@ -474,11 +472,15 @@ def s_img(draw, kinds):
         nb = 1
     elif big:
         nb = draw(st.sampled_from([1, 2, 3]))
+        if nb == ny == nx:
+            nb += 1
     else:
         opts = [1, 2, 3, 3, 4, 5]
         if kind == "tiny":
             opts += [ny, nx]
         nb = draw(st.sampled_from(opts))
+        if nb == ny == nx:  # accidental cube: ambiguous layout, keep it out (the deliberate one follows)
+            nb += 1
         if kind == "tiny" and draw(st.integers(0, 39)) == 0:  # the ambiguous cube, to be excluded and counted
             nb = ny = nx = draw(st.integers(1, 6))
     dtype = draw(st.sampled_from(DTYPES if not big else DTYPES + ["uint8", "int16", "uint8"]))
@@ -798,9 +800,9 @@ def o_existing(case, T):
 
 
 def build(chk: Check) -> None:
-    chk.sub("roundtrip", o_roundtrip, strategy=s_roundtrip(), n={"quick": 560, "thorough": 24000},
-            budget_s={"quick": 70, "thorough": 800}, shrink=False)
-    chk.sub("supplied_overviews", o_layers, strategy=s_layers(), n={"quick": 240, "thorough": 10000},
-            budget_s={"quick": 40, "thorough": 500}, shrink=False)
-    chk.sub("existing_destination", o_existing, strategy=s_existing(), n={"quick": 160, "thorough": 8000},
-            budget_s={"quick": 40, "thorough": 400}, shrink=False)
+    chk.sub("roundtrip", o_roundtrip, strategy=s_roundtrip(), n={"quick": 560, "thorough": 16000},
+            budget_s={"quick": 70, "thorough": 480}, shrink=False)
+    chk.sub("supplied_overviews", o_layers, strategy=s_layers(), n={"quick": 240, "thorough": 7000},
+            budget_s={"quick": 40, "thorough": 240}, shrink=False)
+    chk.sub("existing_destination", o_existing, strategy=s_existing(), n={"quick": 160, "thorough": 5000},
+            budget_s={"quick": 40, "thorough": 160}, shrink=False)
